@@ -27,6 +27,7 @@ fn streams(t: Tier) -> Vec<StreamDef> {
         st("truncations", t.n(57 * 49, 57 * 49, 60, 57 * 49), true),
         st("avp_lengths", t.n(7052, 7052, 60, 7052), true),
         st("flagwords", t.n(65536, 65536, 0, 65536), true),
+        st("big", t.n(320, 8000, 0, 320), false),
     ]
 }
 
@@ -193,6 +194,16 @@ fn run(ctx: &mut Ctx) {
             let o = Some(SOpts::from_index(ctx.rng.below(8) as u8));
             judge_msg(ctx, &b, o);
         }
+        "big" => match wire::big_input(&mut ctx.rng) {
+            (wire::Big::Msg(b), _) => {
+                let o = Some(SOpts::from_index(ctx.rng.below(8) as u8));
+                judge_msg(ctx, &b, o);
+                if b.len() > 12 && b[0] & 1 == 1 {
+                    judge_avps(ctx, &b[12..]);
+                }
+            }
+            (wire::Big::Avps(b), _) => judge_avps(ctx, &b),
+        },
         _ => unreachable!(),
     }
 }
